@@ -164,7 +164,12 @@ public:
         if (iter + _limit > last)
             return false;
 
-        if (!base_type::subject.parse(iter, iter + _limit, ctx, rctx, attr))
+        const It scoped_last = iter + _limit;
+        if (!base_type::subject.parse(iter, scoped_last, ctx, rctx, attr))
+            return false;
+
+        // bytes the subject did not consume do not belong to the packet
+        if (iter != scoped_last)
             return false;
 
         first = iter;
